@@ -64,6 +64,10 @@ pub enum Op {
         /// list the assets in the message in the reverse of the pool's order
         #[serde(default)]
         rev: bool,
+        /// hostile: 0 = attach the declared native funds, 1 = attach no funds at all, 2 = attach only the
+        /// funds of the first native asset
+        #[serde(default)]
+        funds_mode: u8,
     },
     Withdraw {
         lp: u128,
@@ -135,6 +139,9 @@ pub struct Pool2 {
     pub model: crate::scen::pool2_oracle::Model,
     /// whether the next ProvideLiquidity message lists its assets in reverse order
     pub rev_next: std::cell::Cell<bool>,
+    pub funds_mode_next: std::cell::Cell<u8>,
+    /// generator hint: the next step should be a fee collection (a swap just put the pending fee on a boundary)
+    pub want_collect: bool,
 }
 
 pub fn pool_fee(f: &[String; 3]) -> PoolFee {
@@ -246,7 +253,11 @@ impl Pool2 {
                 slippage_tolerance: slippage.map(|s| Decimal::from_str(s).unwrap()),
                 receiver: receiver.map(|s| s.to_string()),
             },
-            self.funds_for(&parts),
+            match self.funds_mode_next.get() {
+                1 => vec![],
+                2 => self.funds_for(&parts).into_iter().take(1).collect(),
+                _ => self.funds_for(&parts),
+            },
         ));
         msgs
     }
@@ -642,6 +653,8 @@ impl Scenario for Pool2 {
             blocks: 0,
             model: Default::default(),
             rev_next: std::cell::Cell::new(false),
+            funds_mode_next: std::cell::Cell::new(0),
+            want_collect: false,
         };
         // liquidity for the helper pair (B,C) so that router hops have something to trade against
         let msgs = s.provide_msgs(&s.pair2.clone(), [1, 2], [5_000_000, 5_000_000], None, None);
